@@ -154,6 +154,7 @@ class HTTPStream:
             elif (
                 message["type"] == "http.response.push"
                 and self.scope["http_version"] in PUSH_VERSIONS
+                and self.state != ASGIHTTPState.CLOSED
             ):
                 if not isinstance(message["path"], str):
                     raise TypeError(f"{message['path']} should be a str")
